@@ -32,7 +32,7 @@ P = {
  "C16": ("exploration", "§6 C16", "After settlement matched flags and the published matched price are compared with the model's final settlement, released flags with recorded payments; every query (by id, every status/type/auction/bidder/is_matched filter combination, random page sizes) is issued through the app's ABCI Query path and must return exactly the stored objects satisfying the request.", ""),
  "C17": ("fault_enumeration", "§6 C17", "With L=1..3 recording listeners: every successful operation calls each listener exactly once, in order, with the values used (compared with the model) and before the announced record is stored; then for every hook method a history triggers and every listener position j<L the history is re-executed with listener j failing: message => tx rejected with nothing written, keeper op => error, settlement => FinalizeBlock error, listeners after j not called.", "; enumeration of (hook method x L x failing position)"),
  "C18": ("exploration", "§6 C18", "Every message type is generated valid and invalid for exactly one reason (field shape, missing auction, wrong type/status/denomination, floor/fixed price, allowance, remainder, signer, funds) in every model state, plus duplicated/reordered/forged transactions and bank failures injected inside transactions: result code 0 iff the model's predicate; for every rejected tx the per-tx KV write set (store tracer) in fundraising/bank/distribution is empty.", "; per-tx KV write sets via the store tracer"),
- "C19": ("exploration", "§6 C19", "Histories with several concurrent auctions sharing auctioneers, bidders and denominations: per-tx KV write sets must stay inside the key space and escrow/participant balances of the auction the operation names; immutable terms, bid identity, id order and counters are checked after every block; the model, which has no cross-auction coupling, must agree on every verdict.", "; per-tx KV write sets via the store tracer"),
+ "C19": ("exploration", "§6 C19", "Histories with several concurrent auctions sharing auctioneers, bidders and denominations: per-tx KV write sets must stay inside the key space and escrow/participant balances of the auction the operation names; immutable terms, bid identity, id order and counters are checked after every block; an auction that no operation names and that passes no boundary must not change; and every history is executed a second time restricted to one of its auctions (all others deleted) on a fresh replica: verdicts, record, bids, allow-list, instalments and escrow balances of the kept auction must be the same in both runs.", "; per-tx KV write sets via the store tracer; projection of the history onto one auction on a second replica"),
  "C20": ("exploration", "§6 C20", "The default-built binary must start; the command tree is enumerated from its own help output and every message/query must be reachable; seeded histories are driven through the binary (--generate-only output is decoded, compared with what was typed, signed by the simulator and executed on the simulated chain); every query command is run by the binary against the simulated node through a request/response RPC shim and its display compared with the node's state. Boot part (not simulation, reported separately): --help of every command, and a real single-node chain initialised and started from the binary must produce blocks, answer a query and include a transaction broadcast through the command line.", "; CLI-in-the-loop with the real default-built binary"),
 }
 ALL = ["C%02d" % i for i in range(1, 21)]
